@@ -403,6 +403,7 @@ def _result_propagated(m, f, call, err_fields):
             return None
     p = P()
     ex = Explorer(f, assume_def={call.id: explore.const(E_MEMORY_ALLOC, 32)}, plugin=p, start_block=call.block.idx)
+    ex.seed_dominating = True
     ex.run()
     bad = []
     for s, t, av in ex.rets:
